@@ -623,6 +623,10 @@ func bFor(intp *Interpreter) error {
 		} else if err != nil {
 			return err
 		}
+		if increment > 0 && val > math.MaxInt64-increment || increment < 0 && val < math.MinInt64-increment {
+			// the next value lies beyond every limit
+			break
+		}
 		val += increment
 	}
 	return nil
